@@ -6,3 +6,7 @@ type Position struct {
 	StartPos  int
 	EndPos    int
 }
+
+func NewPosition(startLine, endLine, startPos, endPos int) *Position {
+	return &Position{StartLine: startLine, EndLine: endLine, StartPos: startPos, EndPos: endPos}
+}
